@@ -672,6 +672,79 @@ func fmtByName(n string) insts.FormatType {
 	return insts.SOP2
 }
 
+// ---------------------------------------------------------------- special operand codes
+
+type codeField struct {
+	second bool // field lies in the second dword
+	lo, w  uint
+}
+
+// operand-code fields per format (ISA layouts)
+var codeFields = map[string][]codeField{
+	"Sop2":  {{false, 0, 8}, {false, 8, 8}, {false, 16, 7}},
+	"Sopk":  {{false, 16, 7}},
+	"Sop1":  {{false, 0, 8}, {false, 16, 7}},
+	"Sopc":  {{false, 0, 8}, {false, 8, 8}},
+	"Smem":  {{false, 6, 7}, {false, 0, 6}},
+	"Vop1":  {{false, 0, 9}, {false, 17, 8}},
+	"Vop2":  {{false, 0, 9}},
+	"Vopc":  {{false, 0, 9}},
+	"Vop3a": {{true, 0, 9}, {true, 9, 9}, {true, 18, 9}, {false, 0, 8}},
+	"Vop3b": {{true, 0, 9}, {true, 9, 9}, {true, 18, 9}, {false, 8, 7}},
+	"Flat":  {{true, 16, 7}},
+}
+
+var specialCodes = []uint32{0, 1, 100, 101, 102, 103, 106, 107, 111, 112, 122, 123, 124, 125, 126, 127, 128, 129, 192, 193, 208,
+	209, 239, 240, 247, 248, 249, 250, 251, 252, 253, 254, 255, 256, 257, 510, 511}
+
+// specialCases enumerates, for every format and every operand-code field, every
+// special code that fits the field: three rows each, once with a second dword
+// and (for 4-byte formats) once as a bare 4-byte buffer.
+func specialCases(r *vh.Rng, fis map[string]*fmtInfo) [][]byte {
+	var out [][]byte
+	names := make([]string, 0, len(codeFields))
+	for n := range codeFields {
+		names = append(names, n)
+	}
+	sort.Strings(names)
+	for _, fn := range names {
+		fi := fis[fn]
+		if fi == nil || len(fi.rows) == 0 {
+			continue
+		}
+		f := insts.FormatTable[fi.typ]
+		opm := uint32(1<<(fi.hi-fi.lo+1)-1) << fi.lo
+		for _, cf := range codeFields[fn] {
+			for _, code := range specialCodes {
+				if code >= 1<<cf.w {
+					continue
+				}
+				for k := 0; k < 3; k++ {
+					w0 := uint32(r.U64())
+					w1 := uint32(r.U64())
+					if k == 0 { // keep the SDWA / VOP3 modifier bits clear once
+						w1 &= 0x00ff07ff
+					}
+					w0 = w0&^f.Mask | f.Encoding
+					w0 = w0&^opm | uint32(fi.rows[r.Intn(len(fi.rows))].op)<<fi.lo
+					fm := uint32(1<<cf.w-1) << cf.lo
+					if cf.second {
+						w1 = w1&^fm | code<<cf.lo
+					} else {
+						w0 = w0&^fm | code<<cf.lo
+					}
+					buf := append(insts.Uint32ToBytes(w0), insts.Uint32ToBytes(w1)...)
+					out = append(out, buf)
+					if k == 2 && fi.size == 4 {
+						out = append(out, insts.Uint32ToBytes(w0))
+					}
+				}
+			}
+		}
+	}
+	return out
+}
+
 // ---------------------------------------------------------------- vendor disassembly listings
 
 var listingLine = regexp.MustCompile(`^\s+(\S+)\s*(.*?)\s*//\s*([0-9A-Fa-f]+):\s+([0-9A-Fa-f]{8})(?:\s+([0-9A-Fa-f]{8}))?\s*(?:<.*>)?\s*$`)
@@ -866,6 +939,14 @@ func main() {
 				c = e.wordCase("short", cdna3, buf, nil, false, fis, r)
 			}
 			cases = append(cases, c)
+		}
+		// deterministic core: every special value of every operand-code field of
+		// every format (literal 255, SDWA 249, DPP 250, inline-constant edges, first
+		// and last SGPR/VGPR codes, special registers, reserved codes), under a real
+		// encoding and real opcodes, all other fields random
+		for _, sc := range specialCases(rng.Fork(), fis) {
+			r := rng.Fork()
+			cases = append(cases, e.wordCase("special", r.Bool(), sc, nil, false, fis, r))
 		}
 		// one valid description for every row of every decode table
 		for _, fn := range descNames {
